@@ -24,6 +24,7 @@ import MF.Model.TypeParse
 import MF.Spec.TypeReads
 import MF.Model.Bridge
 import MF.Model.Query
+import MF.Model.Stmt2
 open MF MF.Lex
 
 def hx (b : Bytes) : String := if b.isEmpty then "-" else toHex b
@@ -194,6 +195,11 @@ def handle (line : String) : String :=
     -- Task X: ep = Q (ParseQuery) | S (ParseStatement); the handler is MF.Query.queryRun (MF/Model/Query.lean)
     match ofHex? (if h == "-" then "" else h) with
     | some buf => Query.queryRun (ep == "S") buf
+    | none => "BADREQ"
+  | ["DML", ep, h] =>
+    -- Task S: ep = D | Ds | S | Ss; the handler is MF.DML.dmlRun (MF/Model/Stmt2.lean)
+    match ofHex? (if h == "-" then "" else h) with
+    | some buf => DML.dmlRun ep buf
     | none => "BADREQ"
   | ["TYPE", h] =>
     match ofHex? (if h == "-" then "" else h) with
